@@ -1,5 +1,6 @@
 import QM.Install
 import QM.InstallModel
+import QM.InstallBridge
 /-! # C12 — writes stay inside the output directory; enablement links reach the service
 
 `Inst.linkPaths svcFile u` / `Inst.target` model `enable_service_file` (main.rs, after the D8, D15, D16
@@ -8,24 +9,6 @@ their targets.  `Pth.splitSlash` gives the parts of a path as the kernel resolve
 is lexical resolution of one part (`Pth.Spec.cleanParts`). -/
 namespace Inst
 open Pth
-
-theorem splitSlash_noSlash (a : Str) (h : '/' ∉ a) : splitSlash a = [a] := by
-  induction a with
-  | nil => rfl
-  | cons c r ih =>
-    have hc : (c == '/') = false := by
-      simp only [List.mem_cons, not_or] at h; simpa using fun e => h.1 e.symm
-    have hr : '/' ∉ r := fun hm => h (List.mem_cons_of_mem _ hm)
-    simp [splitSlash, hc, ih hr]
-
-theorem splitSlash_append (a b : Str) (h : '/' ∉ a) : splitSlash (a ++ '/' :: b) = a :: splitSlash b := by
-  induction a with
-  | nil => simp [splitSlash]
-  | cons c r ih =>
-    have hc : (c == '/') = false := by
-      simp only [List.mem_cons, not_or] at h; simpa using fun e => h.1 e.symm
-    have hr : '/' ∉ r := fun hm => h (List.mem_cons_of_mem _ hm)
-    simp [splitSlash, hc, ih hr]
 
 /-- a WantedBy/RequiredBy link has exactly two parts: `<unit>.wants|.requires` and the service name -/
 theorem C12_dirlink_parts (w suffix name : Str) (hw : '/' ∉ w) (hs : '/' ∉ suffix) (hn : '/' ∉ name) :
@@ -107,5 +90,13 @@ theorem C12_slash_names_ignored (svcFile : Str) (u : MM.SUnit)
     rw [List.filter_eq_nil_iff]; intro w hm; have := hr w hm; simp at this; simp [this]
   simp only [linkPaths, e1, e2]
   split <;> simp
+
+
+/-- the acceptance test is made on the cleaned *string*; an alias that passes it is relative and every part of it, as the
+    kernel resolves the path, is a plain name (no "..", ".", or empty part): the link lies strictly below the output
+    directory.  (Bridge from the component stack of `cleaned` to the string: QM/InstallBridge.lean.) -/
+theorem C12_alias_string (svcFile raw : Str) (h : aliasOK svcFile (cleaned raw) = true) :
+    isAbs (cleaned raw) = false ∧ ∀ part ∈ splitSlash (cleaned raw), isNormal part = true :=
+  alias_string svcFile raw h
 
 end Inst
